@@ -86,3 +86,19 @@ check('C13', 'E4', 'exploration',
       'event/namespace names beyond the two used and argument lists longer '
       'than 2 are covered by uniformity of the code, not by the check.',
       'DESIGN.md 6/C13')
+
+check('C17', 'E4', 'exploration',
+      'bounded-exhaustive enumeration of helper call shapes against '
+      'signature-derived expectations',
+      'For the 4 namespace classes x every helper x every subset of optional '
+      'parameters (read with inspect.signature from the real classes) x '
+      '{keyword, positional prefix} x {truthy sentinels, falsy-but-'
+      'meaningful values} x 2 registration namespaces, the helper is called '
+      'on a namespace registered with a recording subclass of the real '
+      'server/client; every supplied value must arrive by identity under the '
+      'same-named parameter, an omitted namespace must arrive as the '
+      'registration namespace, the result must come back by identity. '
+      'Finite space, enumerated completely.',
+      'defaults of omitted optionals other than namespace and parameters the '
+      'target lacks are outside the claim (as the property says).',
+      'DESIGN.md 6/C17')
